@@ -11,6 +11,7 @@ The regenerated closed-form determinant/inverse theorems live in `Pyiga.Gen.DetI
 -/
 import Pyiga.Proofs.GalerkinAsm
 import Pyiga.Proofs.GalerkinKron
+import Pyiga.Proofs.GalerkinKron3
 import Mathlib.LinearAlgebra.Matrix.Determinant.Basic
 import Mathlib.Tactic.NormNum
 
@@ -232,6 +233,50 @@ theorem kron_path_mass_3d (M0 M1 M2 : List (List α)) (Q0 Q1 Q2 : Nat) (w0 w1 w2
   rw [Finset.mul_sum]
   apply Finset.sum_congr rfl; intro q2 _
   ring
+
+/-- **`bsp_stiffness_3d` (geo=None)**: `k(K0, k(M1,M2)) + k(M0, k(K1,M2)+k(M1,K2))` at the Kronecker
+index `i₀·(n₁n₂)+(i₁·n₂+i₂)` is the Kronecker sum `K₀⊗M₁⊗M₂ + M₀⊗K₁⊗M₂ + M₀⊗M₁⊗K₂` of the 1-D Gram
+matrices (each product of Gram entries is a tensor-product Gauss sum by `gram_mul_gram`, as in
+`kron_path_mass_3d`). -/
+theorem kron_path_stiffness_3d (M0 K0 M1 K1 M2 K2 : List (List α))
+    (QM0 QK0 QM1 QK1 QM2 QK2 : Nat) (wM0 wK0 wM1 wK1 wM2 wK2 : Nat → α) (N0 D0 N1 D1 N2 D2 : Nat → Nat → α)
+    (hM0 : ∀ i j, get2 M0 i j = gram QM0 wM0 N0 N0 i j) (hK0 : ∀ i j, get2 K0 i j = gram QK0 wK0 D0 D0 i j)
+    (hM1 : ∀ i j, get2 M1 i j = gram QM1 wM1 N1 N1 i j) (hK1 : ∀ i j, get2 K1 i j = gram QK1 wK1 D1 D1 i j)
+    (hM2 : ∀ i j, get2 M2 i j = gram QM2 wM2 N2 N2 i j) (hK2 : ∀ i j, get2 K2 i j = gram QK2 wK2 D2 D2 i j)
+    (hr0 : matRows K0 = matRows M0) (hc0 : matCols K0 = matCols M0)
+    (hr1 : matRows K1 = matRows M1) (hc1 : matCols K1 = matCols M1)
+    (hr2 : matRows K2 = matRows M2) (hc2 : matCols K2 = matCols M2)
+    (i0 i1 i2 j0 j1 j2 : Nat) (hi0 : i0 < matRows M0) (hi1 : i1 < matRows M1) (hi2 : i2 < matRows M2)
+    (hj0 : j0 < matCols M0) (hj1 : j1 < matCols M1) (hj2 : j2 < matCols M2) :
+    get2 (stiffness3d M0 K0 M1 K1 M2 K2) (i0 * (matRows M1 * matRows M2) + (i1 * matRows M2 + i2))
+        (j0 * (matCols M1 * matCols M2) + (j1 * matCols M2 + j2)) =
+      gram QK0 wK0 D0 D0 i0 j0 * (gram QM1 wM1 N1 N1 i1 j1 * gram QM2 wM2 N2 N2 i2 j2) +
+      gram QM0 wM0 N0 N0 i0 j0 * (gram QK1 wK1 D1 D1 i1 j1 * gram QM2 wM2 N2 N2 i2 j2 +
+        gram QM1 wM1 N1 N1 i1 j1 * gram QK2 wK2 D2 D2 i2 j2) := by
+  rw [stiffness3d_entry M0 K0 M1 K1 M2 K2 hr0 hc0 hr1 hc1 hr2 hc2 i0 i1 i2 j0 j1 j2 hi0 hi1 hi2 hj0 hj1 hj2,
+    hM0, hK0, hM1, hK1, hM2, hK2]
+
+/-- `integrate` on a two-axis tensor grid (C order): `Σ_{q₁,q₂} (w₁[q₁]·w₂[q₂]) · f[q₁·n₂+q₂]` -/
+theorem integrate_spec_2d (w1 w2 fv : List α) (hf : fv.length = w1.length * w2.length) :
+    integrate [w1, w2] fv none =
+      ∑ q1 ∈ range w1.length, ∑ q2 ∈ range w2.length,
+        (w1.getD q1 0 * w2.getD q2 0) * fv.getD (q1 * w2.length + q2) 0 := by
+  have hT : tensorWeights [w1, w2] =
+      (List.range w1.length).flatMap fun a => (List.range w2.length).map fun b => w1.getD a 0 * w2.getD b 0 := by
+    unfold tensorWeights tensorWeights
+    rw [flatMap_eq_range w1 0]
+    apply List.flatMap_congr; intro a _
+    exact map_eq_map_range w2 0 _
+  have hlen : (tensorWeights [w1, w2]).length = w1.length * w2.length := by rw [hT, length_block]
+  unfold integrate weightedVals
+  simp only
+  rw [list_sum_eq_range, List.length_zipWith, hlen, hf, Nat.min_self, sum_range_kron]
+  apply Finset.sum_congr rfl; intro q1 hq1
+  apply Finset.sum_congr rfl; intro q2 hq2
+  rw [getD_zipWith_mul]
+  congr 1
+  rw [hT]
+  exact getD_block _ _ _ _ _ _ (Finset.mem_range.mp hq1) (Finset.mem_range.mp hq2)
 
 /-! ## Gauss rule affine map -/
 
